@@ -87,8 +87,8 @@ mut("c03-attr-converter-typo-reintroduced", MA, '("attr.converters", "optional")
 # ---- C04 ----------------------------------------------------------------------------------------------
 mut("c04-dict-default-for-optional-list", MP, '                default = "[]"', '                default = "{}"', ["C04"])
 mut("c04-ddict-args-swapped", CX, '            f"Dict[str, {nested}]"', '            f"Dict[{nested}, str]"', ["C04"])
-mut("c04-alias-from-converted-name", MP, "            body_kwargs[\"alias\"] = json.dumps(name, ensure_ascii=False)",
-    "            body_kwargs[\"alias\"] = json.dumps(data[\"name\"].replace('_', '-'), ensure_ascii=False)", ["C04", "C11"])
+mut("c04-alias-from-converted-name", MP, "            alias = json.dumps(name, ensure_ascii=False)",
+    "            alias = json.dumps(data[\"name\"].replace('_', '-'), ensure_ascii=False)", ["C04", "C11"])
 mut("c04-literal-unsorted-truncated", CX, "                    for s in sorted(self.literals)", "                    for s in sorted(self.literals)[:3]", ["C04", "C10"])
 mut("c04-dataclass-none-default-for-list", MD, '                body_kwargs["default_factory"] = "list"', '                body_kwargs["default"] = "None"', ["C04"])
 # ---- C05 ----------------------------------------------------------------------------------------------
@@ -157,7 +157,7 @@ mut("c13-mapping-values-inherit-dict", G, "                types = [self._detect
 # ---- C14 ----------------------------------------------------------------------------------------------
 UT = "json_to_models/utils.py"
 mut("c14-context-not-restored-on-error", MM, "        def __exit__(self, exc_type, exc_val, exc_tb):\n            self.data.context = self._old", "        def __exit__(self, exc_type, exc_val, exc_tb):\n            if exc_type is None:\n                self.data.context = self._old", ["C14"])
-mut("c14-label-cache-shared-between-instances", UT, "    @wraps(func)\n    def cached_fn(self, *args):\n        if getattr(self, '__cache__', None) is None:\n            setattr(self, '__cache__', {})\n        value = self.__cache__.get(args, ...)\n        if value is Ellipsis:\n            value = func(self, *args)\n            self.__cache__[args] = value\n        return value",
+mut("c14-label-cache-shared-between-instances", UT, "    @wraps(func)\n    def cached_fn(self, *args):\n        if getattr(self, '__cache__', None) is None:\n            setattr(self, '__cache__', {})\n        key = (func.__name__, *args)\n        value = self.__cache__.get(key, ...)\n        if value is Ellipsis:\n            value = func(self, *args)\n            self.__cache__[key] = value\n        return value",
     "    shared = {}\n\n    @wraps(func)\n    def cached_fn(self, *args):\n        value = shared.get(args, ...)\n        if value is Ellipsis:\n            value = func(self, *args)\n            shared[args] = value\n        return value", ["C14"])
 mut("c14-class-name-conversion-not-idempotent", MB, "        return prepare_label(name, convert_unicode=self.convert_unicode, to_snake_case=False)", "        name = prepare_label(name, convert_unicode=self.convert_unicode, to_snake_case=False)\n        return name + 'X' if len(name) < 6 else name", ["C14"])
 mut("c14-generator-registers-datetime-globally", MP, "        kwargs['post_init_converters'] = False\n        super().__init__(model, **kwargs)", "        kwargs['post_init_converters'] = False\n        from ..dynamic_typing import register_datetime_classes, registry, IsoDateString\n        if IsoDateString not in registry:\n            register_datetime_classes()\n        super().__init__(model, **kwargs)", ["C14"])
@@ -194,6 +194,9 @@ mut("c17-incremental-write", CLI, """        output = self.version_string + gene
             preamble=self.preamble
         )
         if self.output_file:
+            # Fail before the file is opened (and truncated) if the text can not be written,
+            # i.e. command line arguments with undecodable bytes end up in the header as lone surrogates
+            output.encode("utf-8")
             with open(self.output_file, "w", encoding="utf-8") as f:
                 f.write(output)""", """        if self.output_file:
             with open(self.output_file, "w", encoding="utf-8") as f:
@@ -213,6 +216,13 @@ mut("c17-incremental-write", CLI, """        output = self.version_string + gene
                 preamble=self.preamble
             )
         if self.output_file:""", ["C17"])
+mut("c17-file-opened-before-the-text-is-encodable", CLI, """            output.encode("utf-8")
+            with open(self.output_file, "w", encoding="utf-8") as f:""", """            with open(self.output_file, "w", encoding="utf-8") as f:""", ["C17"])
+mut("c15-yaml-loader-shared-by-threads", CLI, """    def yaml_load(stream):
+        # A YAML() object keeps the state of the document it parses: one object per load,
+        # so that loads running concurrently in several threads do not corrupt each other
+        return yaml.YAML(typ='safe', pure=True).load(stream)""", """    yaml_load = yaml.YAML(typ='safe', pure=True).load""", ["C15"])
+mut("c03-pydantic-alias-raw-surrogate", MP, """            body_kwargs["alias"] = re.sub(r'[\\ud800-\\udfff]', lambda m: '\\\\u%04x' % ord(m.group()), alias)""", """            body_kwargs["alias"] = alias""", ["C03", "C11"])
 mut("c17-non-dict-items-filtered", CLI, "    if isinstance(item, list):\n        yield from item", "    if isinstance(item, list):\n        yield from (x for x in item if isinstance(x, dict))", ["C17"])
 mut("neutral-c17-tempfile-rename-writer", CLI, """            with open(self.output_file, "w", encoding="utf-8") as f:
                 f.write(output)""", """            tmp_name = self.output_file + ".tmp"
